@@ -155,6 +155,29 @@ def scenarios(tier):
                         features={'role': 'relay_then_upstream_close', 'mode': mode, 'flags': fname,
                                   'case': 'reverse_followup_' + fn, '_expect': 'received_from_upstream', '_expect_prefix_only': fn == 'noroute',
                                   '_sockbuf': 4096, '_bound': 1}))
+    # a reader that stalls for LONGER than the idle timeout with output still queued, then resumes: the idle
+    # reaper must not end the connection, every queued byte must still arrive (virtual clock, --timeout 1; the loop
+    # may be spinning on the upstream's end-of-stream meanwhile, so busy iterations are priced at 10 ms)
+    for mode in modes:
+        base = mflag(mode) + ['--timeout', '1']
+        big = b'HTTP/1.0 200 OK\r\nServer: x\r\n\r\n' + stamp(200000, 13)
+        for stall in (1.5, 3.2):
+            out.append(Scenario(
+                '%s/default/relay-reader-stalls-%.1fs-past-idle-timeout' % (mode, stall), base, mode=mode,
+                clients=[dict(script=[('send', GET), ('wait_recv', 1000), ('stop_reading',), ('sleep', stall), ('start_reading',),
+                                      ('wait_eof',)], read_limit=30000)],
+                origins={('10.0.0.1', 80): (lambda big=big: HttpOrigin([[big]], then={0: 'close'}))},
+                dns={'h.test': '10.0.0.1'}, kinds='', horizon=20000, min_time=stall + 3.0,
+                features={'role': 'relay_then_upstream_close', 'mode': mode, 'flags': 'default', 'case': 'stalled_reader_past_idle_timeout',
+                          '_expect': big, '_sockbuf': 4096, '_bound': 0, '_dt_busy': 0.01}))
+        out.append(Scenario(
+            '%s/default/static-reader-stalls-past-idle-timeout' % mode,
+            base + ['--enable-static-server', '--static-server-dir', sd, '--min-compression-length', '100000000'], mode=mode,
+            clients=[dict(script=[('send', b'GET /big.bin HTTP/1.1\r\nHost: x\r\n\r\n'), ('wait_recv', 1000), ('stop_reading',),
+                                  ('sleep', 2.5), ('start_reading',), ('wait_eof',)], read_limit=30000)],
+            kinds='', horizon=20000, min_time=5.5,
+            features={'role': 'static', 'mode': mode, 'flags': 'default', 'case': 'stalled_reader_past_idle_timeout', '_validate': 'h11',
+                      '_sockbuf': 4096, '_bound': 0, '_dt_busy': 0.01}))
     for s in out:
         if s.features.get('_bound') is None:
             s.features.pop('_bound', None)
